@@ -395,7 +395,7 @@ fn layered_limits(ctx: &mut Ctx) {
 /// (documented range 1..16, clamped), and the volume best list is one list mixing systems whose levels differ
 fn layered_limits_2(ctx: &mut Ctx) {
     let l1 = "[fractions]\nall = { enabled = true, accuracy = 0.5, max_denominator = 16 }\n";
-    let l2 = "[fractions]\nall = { enabled = true, accuracy = 0.01, max_denominator = 2, max_whole = 3 }\nmetric = { enabled = true, max_denominator = 2 }\nimperial = { enabled = true, max_denominator = 8 }\n[fractions.unit]\ntsp = { max_denominator = 1, max_whole = 5 }\ntbsp = { max_denominator = 0 }\nl = true\nlb = { max_denominator = 2, max_whole = 7 }\n[fractions.quantity]\nmass = { enabled = true, max_denominator = 4 }\n\n[[quantity]]\nquantity = \"volume\"\nbest = [\"l\", \"cup\"]\n\n[[quantity]]\nquantity = \"time\"\n[quantity.units]\nunspecified = [{ names = [\"glass\"], symbols = [\"gl\"], ratio = 7 }]\n\n[[quantity]]\nquantity = \"length\"\n[quantity.units]\nunspecified = [{ names = [\"span\"], symbols = [\"sp\"], ratio = 0.2 }]\n";
+    let l2 = "[fractions]\nall = { enabled = true, accuracy = 0.01, max_denominator = 2, max_whole = 3 }\nmetric = { enabled = true, max_denominator = 2 }\nimperial = { enabled = true, max_denominator = 8 }\n[fractions.unit]\ntsp = { max_denominator = 1, max_whole = 5 }\ntbsp = { max_denominator = 0 }\nm = true\nlb = { max_denominator = 2, max_whole = 7 }\n[fractions.quantity]\nmass = { enabled = true, max_denominator = 4 }\n\n[[quantity]]\nquantity = \"volume\"\nbest = [\"l\", \"cup\"]\n\n[[quantity]]\nquantity = \"time\"\n[quantity.units]\nunspecified = [{ names = [\"glass\"], symbols = [\"gl\"], ratio = 7 }]\n\n[[quantity]]\nquantity = \"length\"\n[quantity.units]\nunspecified = [{ names = [\"span\"], symbols = [\"sp\"], ratio = 0.2 }]\n";
     let build = || -> Option<Converter> {
         let a: cooklang::convert::UnitsFile = toml::from_str(l1).ok()?;
         let b: cooklang::convert::UnitsFile = toml::from_str(l2).ok()?;
@@ -407,13 +407,13 @@ fn layered_limits_2(ctx: &mut Ctx) {
     };
     // (symbol, max_den, max_whole, accuracy): unit entry > quantity entry > system level > all of the LAST layer; unset accuracy is left
     // at the loosest value that any reading of the layering could give (not judged tighter than that)
-    let limits: [(&str, u8, u32, f32); 9] = [("sp", 2, 3, 0.01), ("tsp", 1, 5, 0.05), ("tbsp", 1, u32::MAX, 0.05), ("l", 2, u32::MAX, 0.05), ("c", 8, u32::MAX, 0.05), ("gl", 2, 3, 0.01), ("lb", 2, 7, 0.05), ("oz", 4, u32::MAX, 0.05), ("g", 4, u32::MAX, 0.05)];
+    let limits: [(&str, u8, u32, f32); 10] = [("m", 2, u32::MAX, 0.05), ("sp", 2, 3, 0.01), ("tsp", 1, 5, 0.05), ("tbsp", 1, u32::MAX, 0.05), ("l", 2, u32::MAX, 0.05), ("c", 8, u32::MAX, 0.05), ("gl", 2, 3, 0.01), ("lb", 2, 7, 0.05), ("oz", 4, u32::MAX, 0.05), ("g", 4, u32::MAX, 0.05)];
     let lim = |sym: &str| limits.iter().find(|l| l.0 == sym).copied();
     let mut r = crate::core::Rng::new(ctx.seed ^ 0x2a7e);
     let n = ctx.budget(6_000, 2_400_000);
     for i in 0..n {
-        let (sym, ..) = limits[(i % 9) as usize];
-        let v = match (i / 9) % 3 {
+        let (sym, ..) = limits[(i % 10) as usize];
+        let v = match (i / 10) % 3 {
             0 => (r.below(160) as f64) / 16.0,
             1 => r.log_uniform(1e-2, 2e1),
             _ => (r.below(8) as f64) + [0.125, 0.375, 0.5, 0.3125, 1.0 / 3.0, 0.484375][r.below(6)],
